@@ -51,7 +51,7 @@ package abci
 //@   props C01
 //@   safety nil
 //@   requires s != nil
-//@   ensures !result ==> s.proposal == old(s.proposal) && s.proposal != nil && bytesId(s.proposal.hash) == bytesId(h)
+//@   ensures !result ==> s.proposal == old(s.proposal) && s.proposal != nil && old(bytesId(s.proposal.hash)) == bytesId(h)
 //@   ensures !result ==> s.proposal.resultsBeginBlock == old(s.proposal.resultsBeginBlock) && s.proposal.resultsEndBlock == old(s.proposal.resultsEndBlock)
 //@   ensures result ==> s.proposal != nil && s.proposal.resultsBeginBlock == nil && s.proposal.resultsDeliverTx == nil && s.proposal.resultsEndBlock == nil
 //@   note cached execution results survive into BeginBlock/DeliverTx/EndBlock only if the block's hash equals the hash of the proposal they were computed for; otherwise the block is (re-)executed from the canonical state
